@@ -138,7 +138,7 @@ const INVALID_GAPS: [GapSpec; 6] = [
 /// MILP-biased weights over `generate::ALL_FAMILIES`.
 const C15_WEIGHTS: [u64; 17] = [22, 10, 8, 12, 14, 5, 2, 4, 5, 4, 4, 4, 2, 2, 2, 1, 1];
 /// Everything, for the solver-agreement worlds.
-const C0405_WEIGHTS: [u64; 17] = [6, 4, 3, 8, 12, 18, 8, 6, 4, 5, 4, 8, 8, 4, 2, 2, 4];
+const C0405_WEIGHTS: [u64; 17] = [6, 4, 3, 8, 12, 18, 8, 6, 4, 5, 4, 8, 8, 4, 4, 2, 4];
 
 fn c15_limits(tier: Tier, rng: &mut Rng) -> GenLimits {
     GenLimits {
@@ -692,6 +692,7 @@ pub fn explore_c14(unit_seed: u64, index: u64, _tier: Tier) -> UnitReport {
         ("probe:bland-switch-engaged", p.bland_engaged),
         ("probe:unbounded-detected", p.unbounded_detected),
         ("probe:finished", p.finished),
+        ("probe:pipe-stage-driver(StepByStepSimplexPipe)", p.pipe_driver),
         ("fault-fired:budget@k(IterationLimitReached)", p.interrupted),
         ("fault-fired:resume-after-interruption", p.resumed),
         ("probe:resume-changed-pivot-sequence", p.resume_changed_sequence),
